@@ -240,7 +240,7 @@ func runC13(c *Ctx) {
 		// port = ((offset+i) % space) + start, the very port probed
 		ret := in.(*ssa.Return)
 		var probed ssa.Value
-		instrsOf(assignPort, func(x ssa.Instruction) {
+		instrsOfU(assignPort, func(x ssa.Instruction) {
 			if cl, ok := x.(*ssa.Call); ok && cl.Call.StaticCallee() == allocLocal {
 				probed = cl.Call.Args[2]
 			}
@@ -332,8 +332,8 @@ func runC13(c *Ctx) {
 		o.Fail(bad.Pos(), "Close can succeed without releasing the address")
 	}
 	okDel := false
-	instrsOf(onClosed, func(in ssa.Instruction) {
-		if cl, ok := in.(*ssa.Call); ok && cl.Call.StaticCallee() == del && cl.Call.Args[1] == ssa.Value(onClosed.Params[1]) {
+	instrsOfU(onClosed, func(in ssa.Instruction) {
+		if cl, ok := in.(*ssa.Call); ok && cl.Call.StaticCallee() == del && sameOrigin(cl.Call.Args[1], ssa.Value(onClosed.Params[1])) {
 			okDel = true
 			o.Site(in.Pos(), "host removes the address from the socket table")
 		}
@@ -358,17 +358,17 @@ func runC13(c *Ctx) {
 		}
 		if addrClass(fc.Call.Args[1]) != "dst" {
 			d, ok := fc.Call.Args[1].(*ssa.Call)
-			if !ok || !d.Call.IsInvoke() || d.Call.Method.Name() != "DestinationAddr" || d.Call.Value != ssa.Value(netIn.Params[1]) {
+			if !ok || !d.Call.IsInvoke() || d.Call.Method.Name() != "DestinationAddr" || !sameOrigin(d.Call.Value, ssa.Value(netIn.Params[1])) {
 				o.Fail(in.Pos(), "the socket is looked up by something else than the datagram's destination address")
 			}
 		}
-		if cl.Call.Args[1] != ssa.Value(netIn.Params[1]) {
+		if !sameOrigin(cl.Call.Args[1], ssa.Value(netIn.Params[1])) {
 			o.Fail(in.Pos(), "another chunk than the received one is delivered")
 		}
 		if !hasFact(in, func(ft fact) bool {
 			return boolFact(ft, func(v ssa.Value) bool {
 				e, ok := v.(*ssa.Extract)
-				return ok && e.Tuple == ssa.Value(fc) && e.Index == 1
+				return ok && sameOrigin(e.Tuple, ssa.Value(fc)) && e.Index == 1
 			}, true)
 		}) {
 			o.Fail(in.Pos(), "delivery without a found socket")
@@ -604,7 +604,7 @@ func runC01(c *Ctx) {
 		}
 	}
 	okCopy := false
-	instrsOf(writeTo, func(in ssa.Instruction) {
+	instrsOfU(writeTo, func(in ssa.Instruction) {
 		if st, ok := in.(*ssa.Store); ok && isFieldStore(st, "vnet.chunkUDP", "userData") {
 			o.Site(in.Pos(), "userData = %s", st.Val.String())
 			mk, isMk := st.Val.(*ssa.MakeSlice)
@@ -613,15 +613,15 @@ func runC01(c *Ctx) {
 				return
 			}
 			// filled by copy(fresh, payload)
-			instrsOf(writeTo, func(x ssa.Instruction) {
+			instrsOfU(writeTo, func(x ssa.Instruction) {
 				if isCall(x, "builtin.copy") {
 					a := x.(*ssa.Call).Call.Args
-					if derivesFrom(a[0], func(v ssa.Value) bool { return v == ssa.Value(mk) || isFieldLoad(v, "vnet.chunkUDP", "userData") }, false) && a[1] == ssa.Value(payload) {
+					if derivesFrom(a[0], func(v ssa.Value) bool { return sameOrigin(v, ssa.Value(mk)) || isFieldLoad(v, "vnet.chunkUDP", "userData") }, false) && sameOrigin(a[1], ssa.Value(payload)) {
 						okCopy = true
 					}
 				}
 			})
-			if l, ok := mk.Len.(*ssa.Call); !ok || !isLenOf(l, func(v ssa.Value) bool { return v == ssa.Value(payload) }) {
+			if l, ok := mk.Len.(*ssa.Call); !ok || !isLenOf(l, func(v ssa.Value) bool { return sameOrigin(v, ssa.Value(payload)) }) {
 				o.Fail(in.Pos(), "the payload copy does not have the caller's length")
 			}
 		}
@@ -674,7 +674,7 @@ func runC01(c *Ctx) {
 	// R2 at most one forward
 	o = c.Obl("R2", "vnet.forwarding", "every function on the datagram path forwards a datagram at most once per call (per dequeued chunk in the router loop)", 6)
 	var pop ssa.Instruction
-	instrsOf(pc, func(in ssa.Instruction) {
+	instrsOfU(pc, func(in ssa.Instruction) {
 		if isQueueCall(in, "pop") {
 			pop = in
 		}
@@ -710,9 +710,9 @@ func runC01(c *Ctx) {
 				popped = ex
 			}
 		}
-		instrsOf(pc, func(in ssa.Instruction) {
+		instrsOfU(pc, func(in ssa.Instruction) {
 			if isInvoke(in, "onInboundChunk") {
-				if in.(*ssa.Call).Call.Args[0] != popped {
+				if !sameOrigin(in.(*ssa.Call).Call.Args[0], popped) {
 					o.Fail(in.Pos(), "the router delivers another chunk than the one it dequeued")
 				}
 			}
@@ -779,7 +779,7 @@ func runC01(c *Ctx) {
 		}
 	}
 	nGo := 0
-	instrsOf(start, func(in ssa.Instruction) {
+	instrsOfU(start, func(in ssa.Instruction) {
 		if g, ok := in.(*ssa.Go); ok {
 			nGo++
 			if !hasFact(g, func(ft fact) bool {
@@ -822,7 +822,7 @@ func runC01(c *Ctx) {
 			if !hasFact(in, func(ft fact) bool {
 				return boolFact(ft, func(v ssa.Value) bool {
 					e, ok := v.(*ssa.Extract)
-					return ok && e.Tuple == ssa.Value(fc) && e.Index == 1
+					return ok && sameOrigin(e.Tuple, ssa.Value(fc)) && e.Index == 1
 				}, true)
 			}) {
 				o.Fail(in.Pos(), "delivery without a found socket")
@@ -833,7 +833,7 @@ func runC01(c *Ctx) {
 	// R6 what NAT returns is what travels (outbound)
 	o = c.Obl("R6", fname(pc), "towards the parent the router pushes exactly the outbound translation's result, only if it is non-nil and no error was returned; an error stops... only the enumerated cases", 1)
 	var tout *ssa.Call
-	instrsOf(pc, func(in ssa.Instruction) {
+	instrsOfU(pc, func(in ssa.Instruction) {
 		if cl, ok := in.(*ssa.Call); ok && cl.Call.StaticCallee() == natOut {
 			tout = cl
 		}
@@ -845,7 +845,7 @@ func runC01(c *Ctx) {
 			o.Fail(in.Pos(), "the router pushes from a new goroutine (reordering)")
 		}
 		ex, ok := cl.Common().Args[1].(*ssa.Extract)
-		if !ok || tout == nil || ex.Tuple != ssa.Value(tout) || ex.Index != 0 {
+		if !ok || tout == nil || !sameOrigin(ex.Tuple, ssa.Value(tout)) || ex.Index != 0 {
 			o.Fail(in.Pos(), "the chunk pushed to the parent is not the result of the outbound translation")
 		}
 		if !isFieldLoad(cl.Common().Args[0], "vnet.Router", "parent") {
@@ -854,7 +854,7 @@ func runC01(c *Ctx) {
 		if tout != nil && !hasFact(in, func(ft fact) bool {
 			return nilFact(ft, func(v ssa.Value) bool {
 				e, ok := v.(*ssa.Extract)
-				return ok && e.Tuple == ssa.Value(tout) && e.Index == 1
+				return ok && sameOrigin(e.Tuple, ssa.Value(tout)) && e.Index == 1
 			}, true)
 		}) {
 			o.Fail(in.Pos(), "the router forwards although the outbound translation failed")
@@ -862,7 +862,7 @@ func runC01(c *Ctx) {
 	}
 	if tout != nil && tout.Call.Args[1] != nil {
 		// the translated chunk is the dequeued one
-		if ex, ok := tout.Call.Args[1].(*ssa.Extract); !ok || ex.Tuple != ssa.Value(pop.(*ssa.Call)) {
+		if ex, ok := tout.Call.Args[1].(*ssa.Extract); !ok || !sameOrigin(ex.Tuple, ssa.Value(pop.(*ssa.Call))) {
 			o.Fail(tout.Pos(), "the router translates another chunk than the one it dequeued")
 		}
 	}
@@ -919,7 +919,7 @@ func runC01(c *Ctx) {
 		// the value sent is the parameter chunk
 		if s, ok := in.(*ssa.Select); ok {
 			for _, st := range s.States {
-				if st.Dir == types.SendOnly && st.Send != ssa.Value(cIn.Params[1]) {
+				if st.Dir == types.SendOnly && !sameOrigin(st.Send, ssa.Value(cIn.Params[1])) {
 					o.Fail(in.Pos(), "another chunk than the received one is queued")
 				}
 			}
@@ -951,10 +951,10 @@ func runC01(c *Ctx) {
 		o.Site(in.Pos(), "%s", in.String())
 	}
 	okCopyR := false
-	instrsOf(readFrom, func(in ssa.Instruction) {
+	instrsOfU(readFrom, func(in ssa.Instruction) {
 		if isCall(in, "builtin.copy") {
 			a := in.(*ssa.Call).Call.Args
-			if a[0] == ssa.Value(readFrom.Params[1]) {
+			if sameOrigin(a[0], ssa.Value(readFrom.Params[1])) {
 				if ud, ok := a[1].(*ssa.Call); ok && ud.Call.IsInvoke() && ud.Call.Method.Name() == "UserData" {
 					okCopyR = true
 				}
@@ -994,7 +994,7 @@ func runC01(c *Ctx) {
 		cl := in.(*ssa.Call)
 		o.Site(in.Pos(), "newChunkUDP")
 		dst := cl.Call.Args[1]
-		if ta, ok := dst.(*ssa.Extract); !ok || ta.Tuple.(*ssa.TypeAssert).X != ssa.Value(writeTo.Params[2]) {
+		if ta, ok := dst.(*ssa.Extract); !ok || !sameOrigin(ta.Tuple.(*ssa.TypeAssert).X, ssa.Value(writeTo.Params[2])) {
 			o.Fail(in.Pos(), "the chunk's destination is not the address given to WriteTo")
 		}
 		src := cl.Call.Args[0]
